@@ -6,6 +6,7 @@ import (
 	"encoding/json"
 	"fmt"
 	"io"
+	"os"
 	"runtime"
 	"strings"
 	"time"
@@ -43,6 +44,8 @@ var c05Corpus = []string{
 	"// comment\nvar a = stream|from().measurement('a')\nvar b = stream|from().measurement('b')\na|join(b).as('a','b').tolerance(1s)|eval(lambda: \"a.v\" + \"b.v\").as('s')|influxDBOut().database('db').retentionPolicy('rp')\n",
 	"stream|from().measurement(/^cpu.*/).groupBy(*)|sample(3)|shift(-1m)|default().field('x', 1.0).tag('t', 'v')|delete().field('y')|flatten().on('t')|log().prefix('p')\n",
 	"var x = 5\nvar s = 'str' + 'ing'\nvar d = 1h + 2m\nvar r = /re[0-9]+/\nvar l = lambda: (\"v\" > x) OR (\"h\" =~ r) AND !(\"b\" == TRUE)\nstream|from().measurement('m').where(l)|changeDetect('v')|stateDuration(lambda: \"v\" != 0).unit(1s)|log()\n",
+	// unary operators on operands they do not apply to, inside binary expressions that are evaluated when the task is defined
+	"var a = 'x' + -'y'\nvar b = 1s + -'u'\nvar c = 'a' + !'t'\nvar d = -TRUE\nvar e = 2 * -'z'\nstream|from().measurement('m').where(lambda: \"s\" + -\"s\" == 'x')|log()\n",
 	"batch\n    |query('SELECT mean(v) FROM \"db\".\"rp\".\"m\"')\n        .period(10s)\n        .every(5s)\n        .groupBy(time(1s), 'host')\n        .fill(0)\n    |top(3, 'mean', 'host')\n    |log()\n",
 }
 
@@ -78,7 +81,7 @@ var c05Params = []string{
 }
 
 var c05Lambdas = []string{
-	"\"a\" + \"b\" > 0", "\"a\" * \"b\" != 7", "(\"a\" - \"b\") / 3 >= 0",
+	"\"a\" + \"b\" > 0", "\"a\" * \"b\" != 7", "(\"a\" - \"b\") / 3 >= 0", "\"s\" + -\"s\" == 'x'", "\"a\" + -\"s\" > 0", "!\"s\" == TRUE OR \"s\" + !\"s\" == 'x'",
 	"\"a\" / \"b\" > 0", "\"a\" % \"b\" == 0", "strSubstring(\"s\", 2, 1) == 'x'", "strSubstring(\"s\", 0, 100) == 'x'", "\"v\" > 5",
 	"int(\"f\") / \"b\" > 1", "strLength(\"s\") / \"b\" > 1", "duration(\"a\", 1s) / \"b\" > 1s", "abs(\"a\") % \"b\" == 1", "strIndex(\"s\", 'z') % \"b\" == 0",
 	"strSubstring(\"s\", 0, 60) == 'x'", "strSubstring(\"s\", 30, 45) =~ /x/", "strLength(\"s\") > 3 AND strSubstring(\"s\", 1, strLength(\"s\")) != ''",
@@ -449,6 +452,11 @@ func c05MutateJSON(doc string, op, where, what int) string {
 func runC05(c *Ctx) Verdict {
 	sc := c05Gen(c)
 	c.Scenario = sc
+	if os.Getenv("KAPSIM_DEBUG") != "" {
+		// a script that kills the process outright (fatal error, not a panic) leaves no replay file: print the case first
+		b, _ := json.Marshal(sc)
+		fmt.Fprintf(os.Stderr, "C05 case: %s\n", b)
+	}
 	cfg := c.WorldConfig()
 	cfg.MaxSteps = 3_000_000
 	delete(cfg.Knobs, "MinimumEventBufferSize")
@@ -669,7 +677,7 @@ func init() {
 	Register(&Prop{
 		ID:  "C05",
 		Run: runC05,
-		Rule: "case = one of five modes. json: the pipeline of a corpus script serialised to JSON, one seeded textual mutation (node type changed or unknown, value of another JSON kind, truncation, dropped key, node ids, edges), offered to Pipeline.Unmarshal; vars: a task definition with one of 30 well- and ill-formed vars documents POSTed to the real task_store handler, then the same script as a template (created, read back with its vars rendered, instantiated with the document, updated); define: a corpus script (6 scripts covering most node kinds) with 1-3 seeded byte-level mutations (truncate, delete, duplicate, rotate, multi-byte rune, comment or comment continuation lines after '/', stray tokens, property without parentheses, random byte, dropped parentheses, 4-7 extra arguments) offered to ast.Parse, tick.Format, TaskMaster.NewTask and NewTemplate inside a world; runtime: (a third of these cases) one of 75 node chains whose count/size/duration/percentile properties are filled with boundary values (0, -1, 1, +-2^63, 0s, -1s, 1ns, the longest duration, 0.0, 100.5, 1.8e308) and which, if the node API accepts them, must process eight points without a node failing; or a running task with one of 21 lambdas (three with two dynamic operands, fed a point in which both change type) in where/alert/stateCount/stateDuration/from/eval/derivative fed good, bad (zero/overflowing divisors, wrong types, empty strings, strings of 33-40 multi-byte characters, missing fields), good points next to a bystander task; peer: a task with a UDF node on the real UDFSocket/udf.Server over simulated pipes against an echo agent or one of 10 misbehaving peers (a batch announcing 2^33..2^62 or a negative number of points, garbage, wrong response types, oversized length prefix, half a frame then close, empty message, end without begin, close after info/init, silence, a duration field reaching the UDF); " +
+		Rule: "case = one of five modes. json: the pipeline of a corpus script serialised to JSON, one seeded textual mutation (node type changed or unknown, value of another JSON kind, truncation, dropped key, node ids, edges), offered to Pipeline.Unmarshal; vars: a task definition with one of 30 well- and ill-formed vars documents POSTed to the real task_store handler, then the same script as a template (created, read back with its vars rendered, instantiated with the document, updated); define: a corpus script (7 scripts covering most node kinds and unary operators on operands they do not apply to) with 1-3 seeded byte-level mutations (truncate, delete, duplicate, rotate, multi-byte rune, comment or comment continuation lines after '/', stray tokens, property without parentheses, random byte, dropped parentheses, 4-7 extra arguments) offered to ast.Parse, tick.Format, TaskMaster.NewTask and NewTemplate inside a world; runtime: (a third of these cases) one of 75 node chains whose count/size/duration/percentile properties are filled with boundary values (0, -1, 1, +-2^63, 0s, -1s, 1ns, the longest duration, 0.0, 100.5, 1.8e308) and which, if the node API accepts them, must process eight points without a node failing; or a running task with one of 24 lambdas (three with two dynamic operands, fed a point in which both change type) in where/alert/stateCount/stateDuration/from/eval/derivative fed good, bad (zero/overflowing divisors, wrong types, empty strings, strings of 33-40 multi-byte characters, missing fields), good points next to a bystander task; peer: a task with a UDF node on the real UDFSocket/udf.Server over simulated pipes against an echo agent or one of 10 misbehaving peers (a batch announcing 2^33..2^62 or a negative number of points, garbage, wrong response types, oversized length prefix, half a frame then close, empty message, end without begin, close after info/init, silence, a duration field reaching the UDF); " +
 			"non-trivial = the task was defined (runtime/peer) or any define case; distinct = distinct (scenario, interleaving signature) pairs",
 		Real:        []string{"tick/ast lexer goroutine + parser, tick.Format, tick evaluator, pipeline.CreatePipeline/CreateTemplatePipeline, TaskMaster.NewTask/NewTemplate", "node.start recover path, WhereNode, AlertNode, StateTracking nodes, FromNode, EvalNode, DerivativeNode, tick/stateful evaluator and functions", "UDFNode, UDFSocket, udf.Server, udf/agent framing", "TaskMaster ingest/fork, httpd write endpoint"},
 		Stub:        []string{"UDFService on the existing seam: real UDFSocket over SimPipes, in-process echo agent or scripted hostile peer", "recording sinks"},
